@@ -208,6 +208,11 @@ def _check(ri, ii, ei, cal, big):
     want['start'] = vals[0] if vals else None
     want['stop'] = (vals[-1] if vals else None) if bounded else None
     a = answers(seq, queries, L, 0)
+    # the same object asked everything again, in the other order: answers
+    # must not depend on what was asked before
+    a2 = answers(seq, queries, L, 1)
+    if a2 != a:
+        return False
     b = answers(ISO8601Sequence(rec, icp, fcp), queries, L, 1)
     if not bounded:
         # (the start of an unbounded sequence may precede the window's
